@@ -43,6 +43,7 @@ TARGETS = {
     "fuzz_json": dict(flavour="asan", srcs=LIBS + ["fuzz/json.cpp"], ld=["-fsanitize=fuzzer"]),
     "json_oracle": dict(flavour="asan", srcs=LIBS + ["fuzz/json.cpp", "fuzz/standalone_main.cpp"]),
     "json_plain": dict(flavour="plain", srcs=LIBS + ["fuzz/json.cpp", "fuzz/standalone_main.cpp"]),
+    "stress_tsan": dict(flavour="tsan", srcs=LIBS + ["threads/stress.cpp"]),
     "collide": dict(flavour="plain", srcs=["tools_cpp/collide.cpp"]),
     "arith": dict(flavour="plain", srcs=LIBS + ["arith/arith.cpp"], ld=["-lrapidcheck"]),
 }
